@@ -123,12 +123,12 @@ EXC_NAMES = [None, None, None, 'org.ex.Failed', 'org.ex.Failed', 'com.a.b.C', 'b
              '9org.x', 'org.x\x00y', 'org.9x', 'a.b.', 'org.ex-dash', 'x' * 250 + '.toolong']
 EXC_TEXTS = ['', 'boom', 'went wrong: 42', 'café ✓', 'a\x00b', '\x00', 'line1\nline2', '%s %d', 'x' * 300,
              'tail\x00']
-HOSTILE_TEXTS = ['\udc80', 'a\ud800b', '\x00\udfff', 'ok\udc80\x00']
+HOSTILE_TEXTS = ['\udc80', 'a\ud800b', '\x00\udfff', 'ok\udc80\x00', 'plain']
 
 
 def gen_exc(rng, hostile=False):
     cls = rng.choice(EXC_CLASSES)
-    name = rng.choice(EXC_NAMES)
+    name = rng.choice(EXC_NAMES + ([5, 2.5, 'org.\udc80x'] if hostile else []))
     text = rng.choice(HOSTILE_TEXTS if hostile else EXC_TEXTS)
     return {'cls': cls, 'name': name, 'text': text,
             'name_attr': name is not None or rng.random() < 0.2}
@@ -229,6 +229,8 @@ def gen_decls(rng, rich=False):
         mix = len(classes) - 1
         classes.append({'bases': [mix, mix - 1], 'ifaces': None, 'attrs': new_attrs(0)})
     paths = rng.sample(PATHS, rng.randrange(1, 4))
+    if rng.random() < 0.1:
+        paths.append(paths[0])          # exported twice: the second export replaces the first
     objects = [{'path': p, 'cls': rng.randrange(len(classes))} for p in paths]
     # a plain mixin alone is not exportable
     for o in objects:
@@ -660,7 +662,7 @@ class Scenario:
         self.model_lines = ['reset'] + self.built.export_lines()
         self.n_prefix = len(self.model_lines)
         self.problems = []          # (key, what, op index, observed, expected)
-        self.hostile = False
+        self.model_ok = True
 
     # ---- canonical event text (must equal Driver/C10.lean's showEvent)
     def canon_events(self, cr, events, ret_value):
@@ -735,7 +737,15 @@ class Scenario:
             self.problems.append(('dispatcher-raised', 'handleMethodCallMessage raised %s: the connection would be lost '
                                   'and no reply sent' % type(raised).__name__, k, line, 'a reply'))
         self.impl_lines.append(line)
+        self.check_after_call(cr)
         # model line
+        try:
+            self.model_lines.append(self.call_model_line(cr, op, oc))
+        except (TypeError, ValueError):
+            self.model_ok = False
+            self.model_lines.append('unrepresentable')
+
+    def call_model_line(self, cr, op, oc):
         names = []
         toks = ['call', str_hex(op['path']), opt_hex(op['iface']), str_hex(op['member']), opt_hex(op['sig']),
                 opt_hex(op['sender']), str(op['serial']), '1' if op['expectReply'] else '0',
@@ -749,8 +759,7 @@ class Scenario:
         else:
             otoks = ['D']
         names.append('org.txdbus.PythonException.NotImplementedError')
-        self.model_lines.append(' '.join(toks + names_tokens(names) + otoks))
-        self.check_after_call(cr)
+        return ' '.join(toks + names_tokens(names) + otoks)
 
     def sig_out_for_model(self, op):
         """sigOut of the method the REAL lookup finds (only used to evaluate the model's `encErr`
@@ -779,12 +788,16 @@ class Scenario:
         if res['kind'] == 'value':
             res['_value'] = parse_value(res['value'])
         sig_out = self.sig_out_for_model(cr.op) if cr is not None else ''
-        if res['kind'] == 'value':
-            rtoks = value_tokens(res['_value'], sig_out, names)
-        else:
-            names.append(name0_of(res['exc']))
-            rtoks = ['F'] + exc_tokens(res['exc'])
-        self.model_lines.append(' '.join(['resolve', str(target)] + names_tokens(names) + rtoks))
+        try:
+            if res['kind'] == 'value':
+                rtoks = value_tokens(res['_value'], sig_out, names)
+            else:
+                names.append(name0_of(res['exc']))
+                rtoks = ['F'] + exc_tokens(res['exc'])
+            self.model_lines.append(' '.join(['resolve', str(target)] + names_tokens(names) + rtoks))
+        except (TypeError, ValueError):
+            self.model_ok = False
+            self.model_lines.append('unrepresentable')
         if d is None:
             self.impl_lines.append('none')
             return
@@ -1166,6 +1179,8 @@ def run_batch(ctx, stream, specs, with_model=True):
         spans.append((len(lines), len(lines) + len(sc.model_lines)))
         lines.extend(sc.model_lines)
         scs.append(sc)
+    if with_model and not all(sc.model_ok for sc in scs):
+        raise ValueError('a scenario of stream %s is not representable on the model line protocol' % stream)
     out = ctx.model(lines) if with_model else None
     for sc, (a, b) in zip(scs, spans):
         judge(ctx, stream, sc, model_out=None if out is None else out[a:b])
@@ -1191,19 +1206,19 @@ def run(ctx):
         run_batch(ctx, data.get('stream', 'dispatch-random'), [spec], with_model=not data.get('oracle_only', False))
         ctx.stat('corpus')
     # random scenarios
-    n = ctx.scale(quick=260, thorough=5000)
+    n = ctx.scale(quick=1500, thorough=20000)
     run_batch(ctx, 'dispatch-random', [gen_scenario(rng, n_ops=rng.randrange(3, 9)) for _ in range(n)])
     # lookup grid (complete in the thorough tier)
-    limit = None if (ctx.tier == 'thorough' or ctx.widen) else 900
+    limit = None if (ctx.tier == 'thorough' or ctx.widen) else 1500
     specs, ncomb = grid_scenarios(rng, limit)
     run_batch(ctx, 'dispatch-lookup-grid', specs)
     ctx.stat('grid-combinations', ncomb)
     # Deferred-heavy histories
-    n = ctx.scale(quick=120, thorough=2500)
+    n = ctx.scale(quick=500, thorough=8000)
     run_batch(ctx, 'dispatch-deferred',
               [gen_scenario(rng, n_ops=rng.randrange(4, 14), deferred_bias=0.35) for _ in range(n)])
     # oracle only: exception texts with lone surrogates (not representable as Lean `Char`)
-    n = ctx.scale(quick=40, thorough=600)
+    n = ctx.scale(quick=150, thorough=2000)
     run_batch(ctx, 'oracle-hostile-text', [gen_scenario(rng, n_ops=4, hostile=True) for _ in range(n)],
               with_model=False)
 
